@@ -7,6 +7,7 @@ mod emu_a64;
 mod emu_rv;
 mod emu_x86;
 mod fun_ast;
+mod fuzzrun;
 mod gen_fun;
 mod gen_lin;
 mod gen_syntax;
